@@ -3,15 +3,20 @@
    `realloop` engine (the real per-device loop with the real mio/epoll driver,
    DevInputReader, TabletModeSwitchReader and DevInputWriter over pipes).
 
-   The definition is the right-hand side of TMProps.C10.C10_sends_are_mapper_outputs
-   (MapperInv.mrun over the inputs, LoopSpec.non_nil) composed with the wire
-   model of C18 (Wire.decode_stream for what the reader delivers, Wire.encode_batch
-   for what one send writes: C18_wellformed).  No new model: only compositions
-   of definitions the theorems are about.
+   The expected bytes are `Pipeline.device_bytes_out` - the function that
+   TMProps.C10.C10_bytes_out_depend_only_on_events_read proves to be what the event
+   loop writes whatever the chunking, and TMProps.C18.C18_virtual_keyboard_sees_mapper_outputs
+   proves to read back as the mapper's event sequence - followed, when a
+   tablet-switch On is written after the key history, by
+   `Pipeline.device_bytes_tablet_on` (Pipeline.pipeline_bytes_then_tablet_event).
+   `x_sends` (the right-hand side of C10_sends_are_mapper_outputs, MapperInv.mrun
+   over the inputs, LoopSpec.non_nil) is kept for the statistics and for
+   encoding what the in-process real Mapper announces.  No new model: only
+   compositions of definitions the theorems are about.
    Directives: ExtrOcamlBasic and ExtrOcamlString only; N, Z, positive, nat stay
    the extracted inductive types; no Extract Constant / Extract Inductive of ours. *)
 From Coq Require Import ExtrOcamlBasic ExtrOcamlString.
-From TM Require Import Base Mapper Monitors MapperInv LoopSpec Wire.
+From TM Require Import Base Mapper Monitors MapperInv LoopSpec Wire Pipeline.
 From TMGen Require Import Modifiers.
 
 Definition x_is_action : key -> bool := Modifiers.is_action_key.
@@ -32,4 +37,11 @@ Definition x_bytes_of_sends (sends : list (list event)) : list N := concat (map 
 
 Definition x_encode_batch := encode_batch.
 
-Extraction "model.ml" x_is_action x_for_layout_ok x_history x_sends x_bytes_of_sends x_encode_batch.
+(* bytes in -> bytes out: the object of the pipeline theorems *)
+Definition x_device_bytes_out (L : layout) (in_bytes : list N) : list N :=
+  Pipeline.device_bytes_out x_is_action L in_bytes.
+Definition x_device_bytes_tablet_on (L : layout) (in_bytes : list N) : list N :=
+  Pipeline.device_bytes_tablet_on x_is_action L in_bytes.
+
+Extraction "model.ml" x_is_action x_for_layout_ok x_history x_sends x_bytes_of_sends x_encode_batch
+           x_device_bytes_out x_device_bytes_tablet_on.
